@@ -915,3 +915,6 @@ V("c03e-counts-overwritten", "C03", {"rule": "C03e", "contains": "get_counts"},
   (RESULTF, "            ret[branch.outcome] = ret.get(branch.outcome, 0) + int(\n                branch.frequency * shots\n            )\n", "            ret[branch.outcome] = int(branch.frequency * shots)\n"))
 V("c03e-counts-augmented-form", "C03", "silent",
   (RESULTF, "            ret[branch.outcome] = ret.get(branch.outcome, 0) + int(\n                branch.frequency * shots\n            )\n", "            ret.setdefault(branch.outcome, 0)\n            ret[branch.outcome] += int(branch.frequency * shots)\n"))
+V("c03e-outcome-map-comprehension", "C03", {"rule": "C03e", "contains": "outcome_map"},
+  (RESULTF, "        ret: dict = {}\n\n        for branch in self.branches:\n            # NOTE: Several branches may carry the same outcome (e.g., the Gaussian\n            # measurements return one branch per sample), hence the frequencies add up.\n            if branch.outcome in ret:\n                ret[branch.outcome][\"frequency\"] += branch.frequency\n            else:\n                ret[branch.outcome] = {\n                    \"frequency\": branch.frequency,\n                    \"state\": branch.state,\n                }\n\n        return ret\n",
+   "        return {\n            branch.outcome: {\"frequency\": branch.frequency, \"state\": branch.state}\n            for branch in self.branches\n        }\n"))
